@@ -231,6 +231,39 @@ func c10Derived(w *W, r *rand.Rand) {
 		c.StatelessOperators = append(c.StatelessOperators, names[i])
 		cfgs = append(cfgs, c)
 	}
+	// a derived config that takes an operator OFF the stateless list it inherited
+	{
+		base2 := eval.NewConfig(eval.Optimizations(true))
+		for _, n := range names {
+			base2.OperatorMap[n] = base.OperatorMap[n]
+		}
+		base2.StatelessOperators = append(base2.StatelessOperators, "opA", "opB")
+		var d *eval.Config
+		if how == 0 {
+			d = eval.NewConfig(eval.ExtendConf(base2))
+		} else {
+			d = eval.CopyConfig(base2)
+		}
+		// keep only opB
+		kept := d.StatelessOperators[:0:0]
+		for _, n := range d.StatelessOperators {
+			if n != "opA" {
+				kept = append(kept, n)
+			}
+		}
+		d.StatelessOperators = kept
+		eval.GetOrRegisterKey(d, "x")
+		for _, n := range names {
+			*calls[n] = 0
+		}
+		_, co := compileGuard(d, "(+ (opA 1) (opB 1 2) (opC 1 2 3) x)")
+		w.Evals++
+		w.Inc("derived_config_compilations")
+		if co.Err == nil && co.Panic == nil && (*calls["opA"] > 0 || *calls["opC"] > 0) {
+			w.Fail("undeclared-operator-invoked-at-compile-time", "a config derived by %s from a base declaring opA and opB stateless, with opA then removed from its StatelessOperators, still invoked opA %d / opC %d time(s) during Compile\nStatelessOperators of this config: %v",
+				[]string{"ExtendConf", "CopyConfig"}[how], *calls["opA"], *calls["opC"], d.StatelessOperators)
+		}
+	}
 	src := "(+ (opA 1) (opB 1 2) (opC 1 2 3) x)"
 	for i, c := range cfgs {
 		eval.GetOrRegisterKey(c, "x")
